@@ -183,6 +183,22 @@ def format (s : String) (k : Int) : Option String :=
   | none => none
   | some (v, _) => some (fmt v k)
 
+/-! ### `extract_names_and_lags` -/
+
+/-- the running "maximum" of `extract_names_and_lags`: `if abs(lag) > abs(max_lag): max_lag = lag` -/
+def maxStep (m k : Int) : Int := if k.natAbs > m.natAbs then k else m
+
+/-- one turn of the loop of `extract_names_and_lags`; `none` = `ValueError` out of `get_variable_name_and_lag` -/
+def extractStep (acc : List (String × Int) × Int) (n : String) : Option (List (String × Int) × Int) :=
+  match parse n with
+  | none => none
+  | some (v, k) => some (acc.1 ++ [(v, k)], maxStep acc.2 k)
+
+/-- `extract_names_and_lags(node_names)`: the list of one-entry dictionaries `{variable: lag}` as pairs, and the lag of
+largest absolute value (the first one among equals; `0` for an empty list or when every lag is 0) -/
+def extractNamesAndLags (names : List String) : Option (List (String × Int) × Int) :=
+  names.foldlM extractStep ([], 0)
+
 /-! ### marker-freeness (the domain of the C12 theorems) -/
 
 /-- the text `word(n=d)` -/
